@@ -6,7 +6,7 @@ import json, os, subprocess, sys, tempfile
 from concurrent.futures import ThreadPoolExecutor
 V = "/verif"
 args = [a for a in sys.argv[1:] if not a.startswith("--")]
-ids = sorted(d for d in os.listdir(f"{V}/benign") if os.path.exists(f"{V}/benign/{d}/patch.diff") and (not args or d in args))
+ids = sorted(d for d in os.listdir(f"{V}/benign") if os.path.exists(f"{V}/benign/{d}/patch.diff") and (not args or any(d == a or (a.endswith("*") and d.startswith(a[:-1])) for a in args)))
 props = [json.loads(l)["id"] for l in open(f"{V}/properties.jsonl")]
 
 
